@@ -224,6 +224,23 @@ def main_guard(fn):
             print("VIOLATION property=%s replay=%s" % (prop, path))
             print("  violation class raises:uncaught:%s:%s: 1" % (type(ex).__name__, where))
             sys.exit(1)
+        # Second net: TLC could not EVALUATE a recorded trace against a Trace_* specification (a logged field has a value
+        # of a kind the specification cannot compare).  On the unchanged tree every recorded trace is evaluable, so
+        # this too is a property of the recorded run.
+        if type(ex).__name__ == "TLCError" and re.search(r"on \S*Trace_\S*", str(ex)) and \
+                re.search(r"evaluating|[Aa]ttempted to", str(ex)) and "Parsing or semantic analysis failed" not in str(ex):
+            main = getattr(sys.modules.get("__main__"), "__file__", "") or ""
+            m = re.search(r"check_(C\d\d)", main)
+            prop = m.group(1) if m else "C00"
+            outdir = os.path.join(OUT_DIR, prop)
+            os.makedirs(outdir, exist_ok=True)
+            path = os.path.join(outdir, "replay_noteval_%s.json" % hashlib.sha1(text.encode()).hexdigest()[:10])
+            with open(path, "w") as f:
+                json.dump({"property": prop, "key": "trace-not-evaluable", "what": "TLC could not evaluate a recorded "
+                           "execution against the trace specification", "detail": {"tlc": str(ex)[-6000:]}}, f, indent=1)
+            print("VIOLATION property=%s replay=%s" % (prop, path))
+            print("  violation class trace-not-evaluable: 1")
+            sys.exit(1)
         print("MACHINERY-FAILURE (exit 2)")
         sys.exit(2)
     sys.exit(rc or 0)
